@@ -119,6 +119,8 @@ class C13(Sim):
         general_only = rng.random() < 0.5
         sp = S.gen_spec(rng, activations=S.GENERAL if general_only else S.ACTIVATIONS, fn_reads_output=rng.random() < 0.3,
                         cascade=rng.random() < 0.5, norm_functions=True, user_terms=["DomainRamp", "InputGain"])
+        if rng.random() < 0.03:
+            sp["flags"]["long_rules"] = True  # some edits turn a rule into a chain of 120 / 400 propositions (a machine-generated rule)
         if rng.random() < 0.5:  # the property's hard cases: make sure a Linear / Function term exists
             o = rng.choice(sp["outputs"])
             if o["family"] == "takagi":
@@ -473,7 +475,9 @@ class C13(Sim):
                 try:
                     c = L.engine.copy()
                 except Exception as ex:
-                    v = viol("copy_raised", i, exception=type(ex).__name__, message=str(ex)[:200])
+                    longest = max((len(r.antecedent.text.split()) for b in L.engine.rule_blocks for r in b.rules), default=0)
+                    v = viol("copy_raised", i, exception=type(ex).__name__, message=str(ex)[:200] if not isinstance(ex, RecursionError) else "",
+                             long_rule=longest > 400)
                     c = None
                 if c is not None:
                     src_after = EO.snapshot(L.engine)
